@@ -214,10 +214,10 @@ impl Prop for UndoGc {
             1 => Just(IStep::Reset),
             4 => Just(IStep::Gc),
         ];
-        (cfgs_strategy(1..=1, false), any::<bool>(), 0u8..4, prop::collection::vec(step, 3..=tier.pick(22, 36)))
-            .prop_map(|(mut cfgs, cleanup, scope, steps)| {
+        (cfgs_strategy(1..=1, false), any::<bool>(), 0u8..4, prop::collection::vec(step, 3..=tier.pick(22, 36)), prop::bool::weighted(0.3))
+            .prop_map(|(mut cfgs, cleanup, scope, steps, async_api)| {
                 cfgs[0].cleanup = cleanup;
-                ICase { cfg: cfgs.remove(0), scope, steps }
+                ICase { cfg: cfgs.remove(0), scope, steps, async_api }
             })
             .boxed()
     }
